@@ -25,9 +25,14 @@ def sh(cmd, **kw):
 
 
 def run_demo(demo, root):
-    env = dict(os.environ, PYTHONPATH=root, NUMBA_CACHE_DIR=os.path.join(root, ".nbcache-demo"), PYTHONHASHSEED="0")
+    env = dict(os.environ, PYTHONPATH=root, NUMBA_CACHE_DIR=os.path.join(root, ".nbcache-demo"), PYTHONHASHSEED="0",
+               OPENBLAS_NUM_THREADS="1", OMP_NUM_THREADS="1")
+    # the script's own directory is sys.path[0]: run a copy placed inside the scratch tree so that it imports *that* package
+    local = os.path.join(root, "_demo_" + os.path.basename(demo))
+    shutil.copy(demo, local)
+    demo = local
     try:
-        p = sh([PY, demo], env=env, cwd=root, timeout=1800)
+        p = sh([PY, demo], env=env, cwd=root, timeout=3600)
         return p.returncode, (p.stdout + p.stderr)[-1500:]
     except subprocess.TimeoutExpired:
         return "timeout", ""
